@@ -159,7 +159,7 @@ def guarded_generators(prog: Program) -> Set[Tuple[str, str]]:
     return out
 
 
-LATER_RULES = ' Later rules: R19.2 demands imported names as the imports bind them (component found through the call graph); (R19.4) parameter kinds; (R19.5) injective renaming; (R19.6) delete only what was redirected; (R19.7) name-kind agreement and inclusive line containment. (R19.13) functions are merged as duplicates under a key that spells out builtins, imported and defined names of the module, and every constant.'
+LATER_RULES = ' Later rules: R19.2 demands imported names as the imports bind them (component found through the call graph); (R19.4) parameter kinds; (R19.5) injective renaming; (R19.6) delete only what was redirected; (R19.7) name-kind agreement and inclusive line containment. (R19.14) the table of builtin names holds every public name of builtins, values included; (R19.13) functions are merged as duplicates under a key that spells out builtins, imported and defined names of the module, and every constant.'
 
 
 def check(prog: Program, tier: str) -> Result:
@@ -259,12 +259,14 @@ def check(prog: Program, tier: str) -> Result:
     _r19_11(prog, res)
     _r19_12(prog, res)
     _r19_13(prog, res)
+    _r19_14(prog, res)
+    _r19_15(prog, res)
     # a renamed binding is rewritten as ONE transaction (R19.3); that only keeps definition and uses together if the
     # scheduler applies a transaction wholly or not at all - decided by the C10 check, adopted here
     from . import c10 as _c10
     res.adopt(_c10.check(prog, tier), {"R10.1", "R10.3", "R10.6"}, "R19.3",
               "a rename is consistent only if its transaction is applied as a whole or not at all")
-    res.floors.update({"R19.1": 8, "R19.2": 4, "R19.3": 2, "R19.4": 1, "R19.5": 1, "R19.6": 1, "R19.7": 2, "R19.8": 6, "R19.9": 1, "R19.10": 1, "R19.11": 3, "R19.12": 1, "R19.13": 4})
+    res.floors.update({"R19.1": 8, "R19.2": 4, "R19.3": 2, "R19.4": 1, "R19.5": 1, "R19.6": 1, "R19.7": 2, "R19.8": 6, "R19.9": 1, "R19.10": 1, "R19.11": 3, "R19.12": 1, "R19.13": 4, "R19.14": 1, "R19.15": 1})
     res.analysed.update({"named_node_constructions_reaching_output": n_ctor, "guarded_name_generators": sorted(f"{a}.{b}" for a, b in gens)})
     return res
 
@@ -1008,6 +1010,43 @@ def _r19_13(prog: Program, res: Result) -> None:
     res.decide(const_branch or generic_ok, "R19.13", key_fn.loc(), key_fn.fq, "hash_node() # constants in the equivalence key",
                "the value of a Constant is hashed whatever its type" if const_branch or generic_ok else
                "only str and int fields of a node are hashed: float, bytes, complex, None constants all look alike - `return 1.5` and `return 2.5` are merged")
+
+
+# ------------------------------------------------------------------------------------------------ R19.14
+def _r19_14(prog: Program, res: Result) -> None:
+    """The blacklists of the renaming rules contain "the builtins" (R19.2 checks that the component is there).  WHAT the table holds is
+    decided here: every public name of the builtins module is a name a program can read - not only the functions: `NotImplemented`,
+    `Ellipsis`, `None`, `True`, `False`, `__debug__` are values.  The table (evaluated by the constant evaluator of sa/model.py with the
+    checker's own interpreter as universe) must hold every name of dir(builtins) that does not start with an underscore."""
+    import builtins as _b
+    try:
+        table = set(prog.const("constants", "BUILTIN_FUNCTIONS"))
+    except Exception as error:
+        res.undecided("R19.14", "pyrefact/constants.py:0", "constants.BUILTIN_FUNCTIONS", "table of builtin names", f"not resolvable: {error}")
+        return
+    want = {n for n in dir(_b) if not n.startswith("_")}
+    missing = sorted(want - table)
+    res.decide(not missing, "R19.14", "pyrefact/constants.py:0", "constants.BUILTIN_FUNCTIONS", "table of builtin names # every public name of builtins",
+               f"all {len(want)} public names of builtins" if not missing else
+               f"{missing[:8]} are missing: a class or variable can be renamed to such a name and shadows the builtin where the scope reads it (`return NotImplemented`, `x is Ellipsis`)")
+
+
+# ------------------------------------------------------------------------------------------------ R19.15
+def _r19_15(prog: Program, res: Result) -> None:
+    """"The names the module defines" (a component of every blacklist, R19.2, and of the own-variable test of the use-site collector)
+    include the parameters of all five kinds: positional-only, positional, keyword-only, *args and **kwargs.  The producer counts
+    `ast.arg` nodes wherever they stand (a walk for ast.arg), or reads all five fields of `ast.arguments`."""
+    fn = prog.funcs.get(("tracing", "get_defined_names"))
+    if fn is None:
+        raise AnalysisError("anchor tracing.get_defined_names not found")
+    text = norm(fn.node)
+    by_node = "ast.arg)" in text.replace(" ", "") or "ast.arg," in text.replace(" ", "")
+    fields = [f_ for f_ in ("posonlyargs", "args", "kwonlyargs", "vararg", "kwarg") if f".{f_}" in text]
+    ok = by_node or len(fields) == 5
+    res.decide(ok, "R19.15", fn.loc(), fn.fq, "get_defined_names() # parameters of every kind are defined names",
+               "counts ast.arg nodes of every kind" if by_node else "reads all five fields of ast.arguments" if ok else
+               f"reads {fields} of ast.arguments only: {sorted(set(['posonlyargs', 'args', 'kwonlyargs', 'vararg', 'kwarg']) - set(fields))} are no `defined names`, a variable "
+               "is renamed to the name of a *args / **kwargs parameter of its own scope and the two become one variable")
 
 
 def _word_in(word: str, text: str) -> bool:
